@@ -439,9 +439,15 @@ EXPECTED_RAISES = {
     # enqueued value that Trial._suggest accepted: ValueError out of study.optimize (side observation, not C10)
     ("BruteForce", "enqueued-out-of-range", "ValueError", "The value "),
 }
+# C09's finding a44f671 (fixed in the working tree, present on the baseline): NSGA-II caches the parents' storage
+# trial ids and uses them as list indexes, so sample_relative raises IndexError wherever trial ids are not
+# 0..n-1 (here: the SQLite file shared by the studies of one distribution). It belongs to C09, not to C10.
+NSGA_ID_BUG = ("IndexError", "KeyError")
 
 
 def _expected_raise(sampler: str, hist: str, exc: BaseException) -> bool:
+    if sampler.startswith("NSGAII") and type(exc).__name__ in NSGA_ID_BUG:
+        return True
     return any(sampler == s and hist == h and type(exc).__name__ == t and str(exc).startswith(m)
                for s, h, t, m in EXPECTED_RAISES)
 
@@ -666,7 +672,9 @@ def task_fn(task: tuple) -> dict:
     hung: set = set()  # a sampler that hung once is not run again in this task (the run ends with exit 3)
     for spec in specs:
         dom = Dom(spec)
-        env = Env(cfg)
+        # one SQLite file per distribution (creating one costs more than a case); every other backend is created
+        # afresh for every case, as a user's single-study storage would be
+        shared = Env(cfg) if cfg == "cached" else None
         try:
             for hist in histories_for(dom):
                 if hists is not None and hist not in hists:
@@ -676,11 +684,17 @@ def task_fn(task: tuple) -> dict:
                         if sname in hung:
                             part.add(f"cases_skipped_after_timeout[{sname}]")
                             continue
-                        if not guarded_case(spec, sname, hist, seed, env, part, cfg == "mem" and seed == seeds[0],
-                                            900 if sname == "GP" else 30):
-                            hung.add(sname)
+                        env = shared or Env(cfg)
+                        try:
+                            if not guarded_case(spec, sname, hist, seed, env, part, cfg == "mem" and seed == seeds[0],
+                                                900 if sname == "GP" else 30):
+                                hung.add(sname)
+                        finally:
+                            if shared is None:
+                                env.close()
         finally:
-            env.close()
+            if shared is not None:
+                shared.close()
         part.add(f"dists[{cfg}][{dom.cls()}]")
         if cfg == "mem" and getattr(dom, "adjusted", False):
             part.add("dists_with_high_adjusted_to_the_grid")
@@ -773,8 +787,11 @@ def run(tier: str, replay: str | None = None) -> int:
         "categoricals have no different-range / out-of-range history (rejected by contract)",
         "the default NSGAIISampler never passes a child through with a single parameter (mutation_prob = 1/n_params = 1): relative "
         "mode of NSGA-II is exercised with mutation_prob=0 (uniform and BLX-alpha crossover)",
-        "suggest_* raising is outside the statement (BruteForceSampler raises ValueError on a changed range, as documented); any "
-        "other exception ends the run with exit 3",
+        "suggest_* raising is outside the statement and only counted: BruteForceSampler raises ValueError on a changed range (as "
+        "documented) and in after_trial on an out-of-range enqueued value; NSGA-II's IndexError/KeyError from trial ids used as "
+        "list indexes is C09's finding a44f671 (baseline tree only, SQLite file shared by several studies); any other exception "
+        "or a case that does not finish in 30 s ends the run with exit 3 (exit 1 if violations were found as well)",
+        "every case runs in a freshly created storage (SQLite: one file per distribution, one study per case)",
         "a numpy float (float subclass) returned by suggest_float is accepted and counted (BruteForceSampler); suggest_int must "
         "return exactly int",
         "non-memory storages (journal file, _CachedStorage(RDB/SQLite), in-process gRPC proxy over memory) on a fixed evenly "
